@@ -22,6 +22,17 @@ theorem no_ghost_processes (hnf : NoFail eval) (hwf : WfCfg cfg) (hres : WfRes c
   obtain ⟨hC, hL, hA, hb⟩ := progress_hyps_reachable_wfRes cfg eval cancelErr hnf hres hsc h
   exact (stuck_final cfg eval cancelErr hnf hwf hres hC hL.inv hA hD hb hst).2.2 hclosed
 
+/-- **When `shutdown(wait=True)` or the with-block returns, every worker process the executor
+    started has exited**: in every reachable state in which the user thread is at the last step of a
+    shutdown procedure with `wait = true`, no worker process is alive. -/
+theorem no_process_when_wait_returns (hnf : NoFail eval) (hwf : WfCfg cfg) (hres : WfRes cfg)
+    {script : List Cmd} {s : State Val Err}
+    (hsc : (script.filter isSubmit).length ≤ cfg.calls.length)
+    (h : Reachable cfg eval cancelErr script s) (hD : pg_depOk cfg s = true)
+    {sd : Sd} (hm : s.mainPc = .inSd sd) (hpc : sd.pc = .finish) (hw : sd.wait = true) :
+    noProcessAlive s = true :=
+  (after_wait_true cfg eval cancelErr hnf hwf hres hsc h hD hm hpc hw).2
+
 /-- **A worker thread that has acknowledged its stop message has stopped its process**: in every
     reachable state a worker whose thread is past `interface.shutdown` (`stopAck`, `stopJoin`,
     `exited`) has no live process — so whenever `shutdown(wait=True)` has joined the worker threads,
